@@ -97,6 +97,14 @@ def hashable(kind: str, p):
     return float(p)
 
 
+def _fval(v):
+    """A told value as a double for the log (nan for a value that is none, e.g. None passed on by a wrapper)."""
+    try:
+        return float(v)
+    except Exception:
+        return float("nan")
+
+
 def child_loss(child, real):
     """loss(real) of a child, bypassing any instance-level wrapper; nan when it raises (F11)."""
     try:
@@ -226,7 +234,7 @@ class Recorder:
             self.current = after
             for x, y in zip(xs, ys):
                 e = {"name": "tell", "pts": [], "imps": [], "raw_pts": [],
-                     "call": ("tell", enc_point(self.kind, x), float(y)), "after": after}
+                     "call": ("tell", enc_point(self.kind, x), _fval(y)), "after": after}
                 self.log.append(e)
                 if self.on_call:
                     self.on_call(self, e)
@@ -245,7 +253,7 @@ class Recorder:
             e["pts"] = [enc_point(self.kind, p) for p in ret[0]]
             e["imps"] = [float(v) for v in ret[1]]
         elif name == "tell":
-            e["call"] = ("tell", enc_point(self.kind, args[0]), float(args[1]))
+            e["call"] = ("tell", enc_point(self.kind, args[0]), _fval(args[1]))
         elif name == "tell_pending":
             e["call"] = ("tell_pending", enc_point(self.kind, args[0]))
         elif name == "_set_data":
